@@ -18,6 +18,8 @@ def run(tier):
         if profiles.check_single(prog, rep, "OpaqueString", op) is not None:
             n += 1
     rep.floor("OpaqueString pipelines extracted", n, 2)
+    # the static forms (PrecisFastInvocation) are part of the public operations: they must forward to these
+    rep.floor("static-form methods checked", profiles.fast_invocation(prog, rep, "OpaqueString"), 3)
     profiles.normalizer_shape(prog, rep, "normalization_form_nfc", "nfc")
     profiles.include_leaves(rep, [("C12", "space mapping (additional mapping rule)"), ("C14", "derived property behind FreeformClass"), ("C02", "FreeformClass::allows")])
     rep.extra["exhaustive"] = True
